@@ -228,6 +228,12 @@ def cert_blob(kind, host_bits, ca_blob, cert_type=2, host_n=None):
         b += mpint(65537) + mpint(rsa_modulus(host_bits) if host_n is None else host_n)
     elif k.startswith(b'ssh-ed25519'):
         b += sstr(b'\x22' * 32)
+    elif k.startswith(b'ecdsa-sha2-'):
+        c = k[len(b'ecdsa-sha2-'):].split(b'-')[0]
+        b += sstr(c) + sstr(b'\x04' + b'\x33' * (ECDSA_QLEN[c.decode()] - 1))
+    elif k.startswith(b'ssh-dss'):
+        pb = host_bits or 1024
+        b += mpint(rsa_modulus(pb)) + mpint(rsa_modulus(160)) + mpint(2) + mpint(rsa_modulus(pb - 1))
     else:
         raise ValueError(kind)
     b += u64(1) + u32(cert_type) + sstr(b'keyid') + sstr(sstr(b'host.example'))
